@@ -269,6 +269,7 @@ func runC14(a *Args) error {
 		"bundles are unexpired (expiry handling of Get is property C15)",
 		"killed processes, not power loss: durability of the page cache is not claimed",
 	}
+	w.Set("partial", "the theorems are about the directory semantics of C14_Model: atomicity of rename(2), stability of an opened inode under rename/unlink and O_EXCL freshness are assumptions about the kernel (they are the meaning of the events); durability after power loss is not claimed")
 	g := &gen{e: e, w: w, rng: NewRng(a.Seed), a: a}
 	g.hookSchedules()
 	g.killAtPoints()
